@@ -46,6 +46,18 @@ struct ObstM {
 struct ConnM { long id; ConnRef *ptr; bool routerMade; long srcA, dstA; long srcO, dstO; unsigned srcC = 0, dstC = 0; bool fixedRoute = false; };   // srcA/dstA: junction last requested for that end (-1 = none); srcO/dstO: obstacle of any kind (srcC/dstC: its pin class)
 struct ClusterM { long id; ClusterRef *ptr; std::vector<long> refs; };   // refs: shapes whose polygon the cluster's ReferencingPolygon points into
 
+// Router::shouldContinueTransactionWithProgress is documented as the hook to cancel a slow transaction: the subclass returns
+// false once `abortAfter` progress calls have been made (-1 = never); the final TransactionPhaseCompleted call is only counted
+struct ProgressRouter : public Router {
+    long abortAfter = -1, calls = 0, completed = 0;
+    explicit ProgressRouter(unsigned flags) : Router(flags) {}
+    bool shouldContinueTransactionWithProgress(unsigned int, unsigned int phase, unsigned int, double) override {
+        if (phase == TransactionPhaseCompleted) { ++completed; return true; }
+        ++calls;
+        return !(abortAfter >= 0 && calls > abortAfter);
+    }
+};
+
 struct World {
     Router *r = nullptr;
     bool consolidate = true;
@@ -428,8 +440,14 @@ static void opSetOption(World &w, vh::Rng &g) {
 }
 // read-only Router calls; the orthogonal-route checks and the output functions walk every route / object
 static void opRouterQuery(World &w, vh::Rng &g) {
-    int k = (int) g.range(0, 3);
-    if (k == 0) {
+    int k = (int) g.range(0, 4);
+    if (k == 4) {
+        // cancel the following transactions after N progress reports (N = -1: stop cancelling)
+        static const long ns[] = {-1, 0, 1, 3, 10};
+        long n = ns[g.range(0, 4)];
+        printf("op api router abortTransactionAfter %ld\n", n); flushLine();
+        ProgressRouter *pr = static_cast<ProgressRouter *>(w.r); pr->abortAfter = n; pr->calls = 0;
+    } else if (k == 0) {
         printf("op api router idQueries\n"); flushLine();
         unsigned n = w.r->newObjectId(); (void) w.r->objectIdIsUnused(n); (void) w.r->objectIdIsUnused(1); (void) w.r->transactionUse();
     } else if (k == 1 && !w.dirty && w.flags == OrthogonalRouting) {
@@ -702,7 +720,7 @@ static void routerHist(vh::Rng &g, bool big, bool allowMajor = false, bool allow
     bool wantMajor = w.orth && !startOff && g.coin(1, 4);
     w.majorHyper = allowMajor && wantMajor;
     printf("router %u\n", flags);
-    w.r = new Router(flags);
+    w.r = new ProgressRouter(flags);
     w.flags = flags; w.polyCapable = (flags & PolyLineRouting) != 0;
     if (w.majorHyper) {
         printf("note majorHyperedgeImprovement\n");
@@ -1021,6 +1039,7 @@ struct Script {
             if (f == "setRoutingParameter") r->setRoutingParameter((RoutingParameter) p, D(t, 5));
             else if (f == "setRoutingPenalty") r->setRoutingPenalty((RoutingParameter) p);
             else if (f == "setRoutingOption") r->setRoutingOption((RoutingOption) L(t, 4), L(t, 5) == 1);
+            else if (f == "abortTransactionAfter") { ProgressRouter *pr = static_cast<ProgressRouter *>(r); pr->abortAfter = L(t, 4); pr->calls = 0; }
             else if (f == "existsQueries") { (void) r->existsOrthogonalSegmentOverlap(); (void) r->existsOrthogonalTouchingPaths(); (void) r->existsCrossings(); (void) r->existsInvalidOrthogonalPaths(); }
             else if (f == "outputInstanceToSVG" || f == "outputDiagramText") {
                 char base[128]; snprintf(base, sizeof base, "/var/tmp/c15-harness-%d", (int) getpid());
@@ -1046,7 +1065,7 @@ struct Script {
             // `setEndpoint c 0 P..` + `setEndpoint c 1 P..` + `api conn c setFixedRoute` are ONE call (ConnRef::setFixedRoute)
             bool fixedTriple = t.size() > 1 && t[0] == "op" && t[1] == "setEndpoint" && n + 2 < lines.size() && lines[n + 2].find(" setFixedRoute ") != std::string::npos;
             if (t.empty() || (t[0] != "op" && t[0] != "router")) { ++n; continue; }
-            if (t[0] == "router") { printf("%s\n", lines[n].c_str()); flushLine(); w.r = new Router((unsigned) L(t, 1)); ++n; continue; }
+            if (t[0] == "router") { printf("%s\n", lines[n].c_str()); flushLine(); w.r = new ProgressRouter((unsigned) L(t, 1)); ++n; continue; }
             if (!w.r) { ++n; continue; }
             if (fixedTriple) { printf("%s\n%s\n%s\n", lines[n].c_str(), lines[n + 1].c_str(), lines[n + 2].c_str()); flushLine(); op(split(lines[n + 2])); n += 3; }
             else { printf("%s\n", lines[n].c_str()); flushLine(); op(t); ++n; }
